@@ -39,6 +39,15 @@ def specs(tier):
                             if provided and not base_pre and pre and kind not in ("init", "new"):
                                 continue
                             levels.append({"pre": pre, "post": post, "snap": snap, "inv": inv, "defines": True})
+                            if inv and (pre, post, snap) == (1, 0, 0) and not base and kind in ("new", "method", "call"):
+                                # (kinds whose hand-run body assigns no attribute: a hand-run __init__ or setter body would trip the
+                                #  real __setattr__ wrapper outside of any suspension)
+                                # invariants that are not checked on calls: construction must still evaluate all of __invariants__
+                                for inv_on in ("S", "SC", "A"):
+                                    lv2 = [dict(l) for l in levels]
+                                    lv2[-1].update({"inv": len(inv_on), "inv_on": inv_on})
+                                    out.append({"kind": kind, "is_async": is_async, "dbc": dbc, "levels": lv2, "style": "def", "err": "cls",
+                                                "foreign": None, "layout": "grouped"})
                             for foreign in (None, "top", "mid", "bottom"):
                                 if foreign and (inv or (tier == "quick" and (pre, post, snap) not in ((1, 1, 1), (2, 1, 0)))):
                                     continue
